@@ -51,6 +51,9 @@ type genConfig struct {
 	// TopLevelList makes program() also keep the top-level statements separately
 	// (fragment cutting, C10); no top-level return is generated before the end.
 	NoTry bool
+	// HostState uses host.bump()/host.state: Go-side module state shared by every
+	// program that imports the module (only for engines that reset it between runs).
+	HostState bool
 	// GlobalVar declares the global GV (assigned and read by the script).
 	GlobalVar bool
 	// CallMark emits call sites of script functions as placeholders that are
@@ -158,7 +161,7 @@ func (g *gen) pickVar(t typ) (gvar, bool) {
 
 func (g *gen) intLit() string {
 	if g.cfg.Consts && g.t.Bool(1, 8) {
-		return []string{"9223372036854775807", "-9223372036854775807", "4294967296", "-1", "255"}[g.t.Draw(5)]
+		return []string{"9223372036854775807", "-9223372036854775807", "4294967296", "-1", "255", "'a'", "'ğ'", "7u", "18446744073709551615u", "0x7f", "1e3"}[g.t.Draw(11)]
 	}
 	return fmt.Sprint(g.t.Draw(10))
 }
@@ -685,6 +688,10 @@ func (g *gen) importStmt(lvl int) string {
 			{name: "double", t: tFn, arity: 1, ret: tInt}}}})
 		g.features["import-host"] = true
 		s := ind(lvl) + name + " := import(\"host\")\n"
+		if g.cfg.HostState && g.t.Bool(1, 2) {
+			// a module function and a module value sharing one Go object
+			s += ind(lvl) + "log(" + name + ".bump(), " + name + ".state.n)\n"
+		}
 		if g.t.Bool(1, 2) {
 			s += ind(lvl) + name + ".arr[" + fmt.Sprint(g.t.Draw(3)) + "] = " + g.expr(tInt, 1) + "\n"
 			s += ind(lvl) + "log(" + name + ".arr, " + name + ".map, " + name + ".nzero, " + name + ".str)\n"
